@@ -178,7 +178,7 @@ package vuego
 
 //@ func (s *Stack) EnvMap() (r)
 //@   modifies nothing
-//@   ensures C08+C13+C17.agree: fresh(r) && forall k string :: ((k in r) == old(envHas(s, k, len(s.stack)))) && ((k in r) ==> r[k] == old(envGet(s, k, len(s.stack))))
+//@   ensures C08+C09+C10+C13+C17.agree: fresh(r) && forall k string :: ((k in r) == old(envHas(s, k, len(s.stack)))) && ((k in r) ==> r[k] == old(envGet(s, k, len(s.stack))))
 //@   loop 0 invariant C17.env.bounds: 0 <= i && i <= len(s.stack) && fresh(result) && result != nil
 //@   loop 0 invariant C13+C17.env.outer: forall k string :: ((k in result) == old(envHas(s, k, i))) && ((k in result) ==> result[k] == old(envGet(s, k, i)))
 //@   loop 1 invariant C17.env.bounds1: 0 <= i && i < len(s.stack) && fresh(result) && result != nil
@@ -275,6 +275,8 @@ package vuego
 //@ func (t *template) Render(ctx, w) (err)
 //@   assert C07.dispatch.readonly: false at "never call Assign"
 //@   assert C07.plain.only.if: layout == "" && !fileExists(t.vue.loader.FS, "layouts/base.vuego") at "call renderWithoutLayout"
+//@   assert C12.dest.unwrapped.plain: $arg1 == old(w) at "call renderWithoutLayout"
+//@   assert C12.dest.unwrapped.layout: $arg1 == old(w) at "call layout"
 //@   ensures C12.nothing: err != nil && !failed(w) ==> out(w) == old(out(w))
 //@   ensures C12.reported: failed(w) && !old(failed(w)) ==> err != nil
 //@   ensures C12.complete: err == nil ==> failed(w) == old(failed(w))
@@ -531,6 +533,8 @@ package vuego
 //@ func (v *Vue) interpolateToWriter(ctx, w, input) (err)
 //@   modifies out(w), failed(w), caches(v)
 //@   loop 0 invariant C02.interp.scan: 0 <= last && last <= len(input)
+//@   loop 1 invariant C11.interp.trim.lead: 0 <= start && start + 2 <= exprStart && exprStart <= exprEnd && exprEnd == endPos - 2 && endPos <= len(input)
+//@   loop 2 invariant C11.interp.trim.trail: 0 <= start && start + 2 <= exprStart && exprStart <= exprEnd && exprEnd <= endPos - 2 && endPos <= len(input)
 //@   assert C02.interp.static: 0 <= last && last <= start && start + 2 <= len(input) && start == last + indexOf(input[last:], "{{") &&
 //@     indexOf(input[start + 2:], "}}") >= 0 && endPos == start + 4 + indexOf(input[start + 2:], "}}") && endPos <= len(input) at "io.WriteString(w, input[last:start])"
 //@   assert C13.uniform.text.negation: $arg1 == expr at "call evalConditionExpr"
@@ -624,7 +628,7 @@ package vuego
 //@   ensures l.FS == nil || !fileExists(l.FS, filename) ==> err != nil
 //@ func (ctx VueContext) WithTemplate(filename) (r)
 //@   modifies nothing
-//@   ensures C05.shared.stack: r.stack == ctx.stack && r.seen == ctx.seen && r.SlotScope == ctx.SlotScope
+//@   ensures C05+C06+C16.shared.stack: r.stack == ctx.stack && r.seen == ctx.seen && r.SlotScope == ctx.SlotScope
 
 //@ func (s *Stack) ForEach(expr, fn) (err)
 //@   trusted
@@ -660,6 +664,7 @@ package vuego
 //@ func (v *Vue) evaluateNodeAsElement(ctx, node, depth) (res, err)
 //@   assert C01.eval.once: $arg1 == newNode at "call evalAttributes"
 //@   assert C04+C06.slot.filled: node.Data != "slot" at "call evalAttributes"
+//@   assert C03+C10.chain.loop.private: $arg1 == node || (fresh($arg1) && $arg1 != nil && (len($arg1.Attr) == 0 || fresh($arg1.Attr))) at "call evalFor"
 //@   assert C16.marked.chain.member: hasAttrUpTo(node.Attr, "v-once", len(node.Attr)) ==> ctx.seen[getAttrFrom(node.Attr, "v-once-id", 0)] at "helpers.GetAttr(node, \"v-html\")"
 //@   assert C16.marked.chain.slot: hasAttrUpTo(node.Attr, "v-once", len(node.Attr)) ==> ctx.seen[getAttrFrom(node.Attr, "v-once-id", 0)] at "call evalSlot"
 //@   assert C01.eval.once.html: $arg1 == newNode at "call evalVHtml"
@@ -680,7 +685,7 @@ package vuego
 //@   loop 0 invariant C05.balance.loop: BALANCED(ctx)
 //@   loop 4 invariant C05.balance.loop: BALANCED(ctx)
 //@   loop 3 invariant C05.required.scan: 0 <= $i && $i <= len(requiredAttrs) && forall ri int :: 0 <= ri && ri < $i ==> (requiredAttrs[ri] in componentData)
-//@   assert C01+C04.include.attrs.private: fresh($arg1) && $arg1 != nil at "call evalAttributes"
+//@   assert C01+C04+C06.include.attrs.private: fresh($arg1) && $arg1 != nil at "call evalAttributes"
 //@   assert C09+C10+C11.template.vhtml.private: fresh($arg1) && $arg1 != nil at "call evalVHtml"
 //@   assert C05.required.checked: forall ri int :: 0 <= ri && ri < len(requiredAttrs) ==> (requiredAttrs[ri] in componentData) at "call evalVHtml"
 
